@@ -17,6 +17,9 @@ mod eng_perm;
 mod eng_fl;
 mod eng_conv;
 mod eng_core;
+mod eng_scope;
+mod eng_typing;
+mod eng_parse;
 mod run;
 
 use serde_json::{json, Value};
@@ -45,6 +48,9 @@ fn dispatch(req: &Value) -> Value {
         "fl" => eng_fl::op(req),
         "conv" => eng_conv::op(req),
         "core" => eng_core::op(req),
+        "scope" => eng_scope::op(req),
+        "typing" => eng_typing::op(req),
+        "parse" => eng_parse::op(req),
         "ping" => json!({"pong": true}),
         _ => json!({"bad-op": true}),
     }
